@@ -51,6 +51,7 @@ class LoopGen:
         self.counter = 0
         # user variables that look like generated temporaries, to stress Gensym
         self.clash = rng.random() < 0.35
+        self.counters = set()      # while-loop counters: never reassigned by a nested body (termination)
         self.ctx = None
 
     def fresh(self, base):
@@ -109,7 +110,7 @@ class LoopGen:
         r = self.r
         out = []
         k = n_stmts if n_stmts is not None else r.randint(1, 3)
-        outer = [x for x, t in sc.items() if t == 'R' and x not in elems and x != 'kf']
+        outer = [x for x, t in sc.items() if t == 'R' and x not in elems and x != 'kf' and x not in self.counters]
         for _ in range(k):
             c = r.random()
             if c < 0.32 and outer:
@@ -229,6 +230,7 @@ class LoopGen:
         kind = r.choice(kinds)
         if kind == 'while':
             c = self.fresh('c')
+            self.counters.add(c)
             inner = dict(sc)
             inner[c] = 'R'
             bound = r.randint(1, 4)
@@ -392,6 +394,7 @@ class LoopGen:
                 self.features.add('fuse-in-ifexpr-branch')
             elif c < 0.78:
                 cvar = self.fresh('c')
+                self.counters.add(cvar)
                 inner = dict(sc)
                 inner[cvar] = 'R'
                 wcond = Node('and', [Node('cmp', ['<'], [V(cvar), lit(r.randint(1, 3))]), self.anyall(dict(inner), lists)])
